@@ -7,7 +7,8 @@ from fractions import Fraction
 from lib import pyvals as pv
 from lib.gallina import gstr, gbool, glist, gpair, gopt, gnat, gN, gQ
 
-EXC_TYPES = ["ValueError", "KeyError", "RuntimeError", "ZeroDivisionError", "CustomError"]
+EXC_TYPES = ["ValueError", "KeyError", "RuntimeError", "ZeroDivisionError", "CustomError", "AssertionError"]
+FAULT_EXC_TYPES = EXC_TYPES + ["UnserError"]
 IN_ALIASES = ["get_user", "db.fetch", "load", "cfg {p}", "in x", "svc:{p}:read", "fetch_2", "é", "a args=", "{{lit}} {p}"]
 OUT_ALIASES = ["send", "publish", "db.write", "emit_2", "log out", "notify", "out#1", "é", "w"]
 USER_KEYS = ["user:k1", "user:k2", "note", "user:é"]
@@ -204,7 +205,7 @@ def rand_terminal(rng, w, nenv):
     if r < w["interrupt"]:
         return {"k": "interrupt"}
     if r < w["interrupt"] + w["raise_"]:
-        return {"k": "raise", "ty": rng.choice(EXC_TYPES)}
+        return {"k": "raise", "ty": rng.choice(FAULT_EXC_TYPES if w.get("unser", 0) > 0 else EXC_TYPES)}
     return {"k": "ret", "e": rand_expr(rng, w, nenv, set())}
 
 
